@@ -55,9 +55,13 @@ const_TreesQuick == Catalogue
 const_TreesTiny == <<TFifo>>
 
 \* ---- race trees (C02): small, so that every attacker placement is explored ----
-TRace1 == [name |-> "race1", nodes |-> << D(5, R, "a"), D(6, 5, "b"), F(7, 6, "f") >>, maxlen |-> 4, extra |-> {}]
-TRace2 == [name |-> "race2", nodes |-> << D(5, R, "a"), L(6, R, "l", <<"a">>), D(7, 5, "b") >>, maxlen |-> 3, extra |-> {}]
-TRace3 == [name |-> "race3", nodes |-> << D(5, R, "a"), D(6, 5, "b"), L(7, 6, "up", <<"..", "..">>) >>, maxlen |-> 3, extra |-> {}]
+TP(name, nodes, paths) == [name |-> name, nodes |-> nodes, maxlen |-> 0, extra |-> paths]
+TRace1 == TP("race1", << D(5, R, "a"), D(6, 5, "b"), F(7, 6, "f") >>,
+             { <<"a", "b", "..">>, <<"a", "b", "..", "b", "f">>, <<"a", "..", "a">>, <<"a", "b", "f">>, <<"a", "b", "..", "..">> })
+TRace2 == TP("race2", << D(5, R, "a"), L(6, R, "l", <<"a">>), D(7, 5, "b") >>,
+             { <<"l", "b">>, <<"l", "..">>, <<"l", "b", "..", "..">>, <<"l">> })
+TRace3 == TP("race3", << D(5, R, "a"), D(6, 5, "b"), L(7, 6, "up", <<"..", "..">>) >>,
+             { <<"a", "b", "up">>, <<"a", "b", "up", "a">> })
 const_TreesRace == <<TRace1, TRace2, TRace3>>
 const_TreesGen   == Catalogue \o GenSeq
 
